@@ -52,22 +52,14 @@ impl Tables {
         // model channel i = i-th smallest real id: numeric order in the model = byte order here
         // Ids are opaque 32-byte values (`TypeId(pub [u8; 32])`): besides label-derived ids the table holds ids that
         // agree on long prefixes (31, 16 and 15 leading bytes), so an order decided on a prefix only is visible.
-        let mut base = make_channel_id("c18:ch:0").0;
-        base[0] = 0;
-        let mut chans: Vec<ChannelId> = Vec::new();
-        for i in 0..4u8 {
-            let mut b = base;
-            b[31] = i;
-            chans.push(warp_core::TypeId(b));
-        }
-        for i in 1..4u8 {
-            let mut b = base;
-            b[16] ^= i;
-            chans.push(warp_core::TypeId(b));
-            let mut b = base;
-            b[15] ^= i;
-            chans.push(warp_core::TypeId(b));
-        }
+        // (all-zero ids with one late non-zero byte are the smallest ids, so the model's channels 0, 1, 2 agree on their
+        // first 16 bytes whatever the label-derived ids are)
+        let z = |pos: usize, v: u8| {
+            let mut b = [0u8; 32];
+            b[pos] = v;
+            warp_core::TypeId(b)
+        };
+        let mut chans: Vec<ChannelId> = vec![z(31, 1), z(31, 2), z(16, 1), z(16, 2), z(15, 1), z(15, 2), z(0, 1)];
         while chans.len() < NCH {
             chans.push(make_channel_id(&format!("c18:ch:{}", chans.len())));
         }
